@@ -48,6 +48,11 @@ def runBrainCase (line : String) : String :=
   | ["brain", pairs, req, z, carrier, _form] =>
     match parsePairs pairs, parseReq req, z.toInt?, parseRat? carrier with
     | some ps, some rq, some z, some c =>
+      -- the model resolves the default and the fraction request from the mass of the natural-abundance composition
+      -- (`monoMassOf`); the code asks `composition.mass()`, which weighs a fixed-isotope key by that isotope.  The two
+      -- agree on plain keys only: a labelled composition with such a request is outside the model
+      let labelled := ps.any (fun e => e.1.2 != 0)
+      if labelled && (match rq with | .fixed _ => false | _ => true) then "bad-args" else
       match bcompOf T ps with
       | none => "bad-args"
       | some bc =>
